@@ -1,5 +1,257 @@
-(** Lemmas for C06 about the model of Layout::flatten (Raw/RawFlatten.v). *)
-From Coq Require Import ZArith List String Bool Lia.
+(** Lemmas for C06 about the model of `Layout::flatten` (Raw/RawFlatten.v).
+    Part 1 (any commutative ring): flattening one level at a time -- [flatten_K] of a layout is its own
+            elements followed, instance by instance, by the flattening of the instantiated cell moved by
+            the instance's transform ([flatten_K_step]); derived from C12's [flatten_helper_paths].
+    Part 2 the raw library: [rflat] is that one-level recursion on a [library] itself (no tags, no
+            tree); whenever it is defined, [raw_flatten] returns it ([rflat_raw_flatten]). *)
+From Coq Require Import ZArith List String Bool Lia Permutation Arith.
 From L21 Require Import Base.F64 Raw.RawData Raw.RawFlatten.
+From L21 Require Geom.Transform Geom.TransformSpec Geom.Transform_proofs.
 Import ListNotations.
 Local Open Scope Z_scope.
+Module TP := Geom.Transform_proofs.
+
+(** * flatten_helper under a transform = the flattening from the identity, moved *)
+Section Compose.
+  Context {K : Type} (R : T.ring_ops K).
+  Hypothesis Rth : Ring_theory.ring_theory (T.k0 R) (T.k1 R) (T.kadd R) (T.kmul R) (T.ksub R) (T.kopp R) (@eq K).
+
+  Lemma shape_map_comp : forall (f h : K * K -> K * K) s, TP.shape_map f (TP.shape_map h s) = TP.shape_map (fun v => f (h v)) s.
+  Proof. intros f h s. destruct s; cbn; rewrite ?map_map; reflexivity. Qed.
+  Lemma elem_map_comp : forall (f h : K * K -> K * K) e, TP.elem_map f (TP.elem_map h e) = TP.elem_map (fun v => f (h v)) e.
+  Proof. intros f h [tag s]. unfold TP.elem_map; cbn. rewrite shape_map_comp. reflexivity. Qed.
+  Lemma elem_map_ext : forall (f h : K * K -> K * K) e, (forall v, f v = h v) -> TP.elem_map f e = TP.elem_map h e.
+  Proof. intros f h [tag s] H. unfold TP.elem_map; cbn. f_equal. apply TP.shape_map_ext. exact H. Qed.
+
+  Lemma image_under_trans : forall (t : T.transform K) pe,
+    TP.image_under R t pe = TP.elem_map (T.apply R t) (TP.image_under R (T.identity R) pe).
+  Proof.
+    intros t [path e]. unfold TP.image_under; cbn [fst snd]. rewrite elem_map_comp. apply elem_map_ext. intro v.
+    unfold TP.along. rewrite !(TP.fold_cascade_apply R Rth). rewrite (TP.apply_identity R Rth). reflexivity.
+  Qed.
+
+  Lemma flatten_helper_K_trans : forall (l : T.layout (T.placement K) (K * K)) (t : T.transform K),
+    T.flatten_helper_K R l t =
+    match T.flatten_K R l with
+    | T.Ok xs => T.Ok (map (TP.elem_map (T.apply R t)) xs)
+    | T.Panic => T.Panic
+    | T.OutOfModel => T.OutOfModel
+    end.
+  Proof.
+    intros l t. unfold T.flatten_K. rewrite !(TP.flatten_helper_paths R).
+    destruct (TP.paths l) as [ps|]; [|reflexivity]. f_equal. rewrite map_map. apply map_ext. intro pe.
+    apply image_under_trans.
+  Qed.
+
+  (** one level of [flatten_K] *)
+  Fixpoint sub_flat (insts : list (T.placement K * option (T.layout (T.placement K) (K * K)))) : T.outcome (list (T.element (K * K))) :=
+    match insts with
+    | [] => T.Ok []
+    | (p, oc) :: rest =>
+      match oc with
+      | None => T.Panic
+      | Some c =>
+        match T.flatten_K R c with
+        | T.Ok xs => match sub_flat rest with
+                     | T.Ok ys => T.Ok (map (TP.elem_map (T.apply R (T.from_placement R p))) xs ++ ys)
+                     | T.Panic => T.Panic
+                     | T.OutOfModel => T.OutOfModel
+                     end
+        | T.Panic => T.Panic
+        | T.OutOfModel => T.OutOfModel
+        end
+      end
+    end.
+
+  Lemma elem_map_id : forall es : list (T.element (K * K)), map (TP.elem_map (T.apply R (T.identity R))) es = es.
+  Proof.
+    intro es. rewrite <- (map_id es) at 2. apply map_ext. intros [tag s]. unfold TP.elem_map; cbn. f_equal.
+    rewrite (TP.shape_map_ext (T.apply R (T.identity R)) (fun v => v)) by (apply (TP.apply_identity R Rth)).
+    destruct s; cbn; rewrite ?map_id; reflexivity.
+  Qed.
+
+  Lemma flatten_K_step : forall es insts,
+    T.flatten_K R (T.Layout es insts) =
+    match sub_flat insts with
+    | T.Ok sub => T.Ok (es ++ sub)
+    | T.Panic => T.Panic
+    | T.OutOfModel => T.OutOfModel
+    end.
+  Proof.
+    intros es insts. unfold T.flatten_K at 1. unfold T.flatten_helper_K. rewrite TP.flatten_helper_eq.
+    rewrite TP.elems_transform_total, elem_map_id.
+    assert (H : TP.flatten_insts (fun p q => Some (T.cascade R p q)) (fun p => Some (T.from_placement R p))
+                                 (fun t v => Some (T.apply R t v)) (T.identity R) insts = sub_flat insts).
+    { induction insts as [|[p [c|]] rest IH]; rewrite ?TP.flatten_insts_nil, ?TP.flatten_insts_cons; cbn [sub_flat]; try reflexivity.
+      rewrite (TP.cascade_identity_l R Rth).
+      change (T.flatten_helper (fun p0 q => Some (T.cascade R p0 q)) (fun p0 => Some (T.from_placement R p0))
+                               (fun t v => Some (T.apply R t v)) c (T.from_placement R p))
+        with (T.flatten_helper_K R c (T.from_placement R p)).
+      rewrite flatten_helper_K_trans, IH. destruct (T.flatten_K R c); reflexivity. }
+    rewrite H. reflexivity.
+  Qed.
+End Compose.
+
+(** * The raw library level: [raw_flatten] one level at a time *)
+Definition rshape_map (f : Z * Z -> Z * Z) (s : shape) : shape :=
+  match s with
+  | Rect a c => Rect (ptz (f (zpt a))) (ptz (f (zpt c)))
+  | Polygon pts => Polygon (map (fun p => ptz (f (zpt p))) pts)
+  | Path pts w => Path (map (fun p => ptz (f (zpt p))) pts) w
+  end.
+Definition relem_map (f : Z * Z -> Z * Z) (e : element) : element :=
+  mkelem (e_net e) (e_layer e) (e_purpose e) (rshape_map f (e_shape e)).
+
+Fixpoint rflat (fuel : nat) (cells : list cell) (k : nat) : option (list element) :=
+  match fuel with
+  | O => None
+  | S f =>
+    match nth_error cells k with
+    | Some c =>
+      match c_layout c with
+      | Some l =>
+        match (fix go (is : list instance) : option (list element) :=
+                 match is with
+                 | [] => Some []
+                 | inst :: r =>
+                   match placement_of inst, rflat f cells (i_cell inst), go r with
+                   | Some p, Some xs, Some ys => Some (map (relem_map (T.apply_Z (T.from_placement_Z p))) xs ++ ys)
+                   | _, _, _ => None
+                   end
+                 end) (lay_insts l) with
+        | Some sub => Some (lay_elems l ++ sub)
+        | None => None
+        end
+      | None => None
+      end
+    | None => None
+    end
+  end.
+Definition rflat_insts (f : nat) (cells : list cell) : list instance -> option (list element) :=
+  fix go (is : list instance) : option (list element) :=
+    match is with
+    | [] => Some []
+    | inst :: r =>
+      match placement_of inst, rflat f cells (i_cell inst), go r with
+      | Some p, Some xs, Some ys => Some (map (relem_map (T.apply_Z (T.from_placement_Z p))) xs ++ ys)
+      | _, _, _ => None
+      end
+    end.
+Lemma rflat_S : forall f cells k,
+  rflat (S f) cells k =
+  match nth_error cells k with
+  | Some c => match c_layout c with
+              | Some l => match rflat_insts f cells (lay_insts l) with
+                          | Some sub => Some (lay_elems l ++ sub)
+                          | None => None
+                          end
+              | None => None
+              end
+  | None => None
+  end.
+Proof. reflexivity. Qed.
+
+Lemma zpt_ptz : forall v, zpt (ptz v) = v.
+Proof. intros [x y]. reflexivity. Qed.
+Lemma ptz_zpt : forall p, ptz (zpt p) = p.
+Proof. intros [x y]. reflexivity. Qed.
+Lemma shape_of_t_tshape : forall s, shape_of_t (tshape s) = s.
+Proof.
+  intros [a c|pts|pts w]; cbn; rewrite ?ptz_zpt, ?map_map; f_equal;
+    try (rewrite <- (map_id pts) at 2; apply map_ext; exact ptz_zpt).
+Qed.
+Lemma shape_of_t_shape_map : forall f s, shape_of_t (TP.shape_map f s) = rshape_map f (shape_of_t s).
+Proof.
+  intros f [a c|pts|pts w]; cbn; rewrite ?zpt_ptz, ?map_map; f_equal;
+    try (apply map_ext; intro v; rewrite zpt_ptz; reflexivity).
+Qed.
+Lemma untag_elem_map : forall all f te, untag all (TP.elem_map f te) = relem_map f (untag all te).
+Proof.
+  intros all f [tag s]. unfold untag, TP.elem_map, relem_map; cbn [fst snd e_net e_layer e_purpose e_shape].
+  rewrite shape_of_t_shape_map. reflexivity.
+Qed.
+
+Lemma all_elems_split : forall cells k c,
+  nth_error cells k = Some c ->
+  exists a b, all_elems cells = a ++ cell_elems c ++ b /\ Z.of_nat (List.length a) = elem_offset cells k.
+Proof.
+  induction cells as [|c0 cells IH]; intros k c H; destruct k; cbn in H; try discriminate.
+  - injection H as ->. exists [], (all_elems cells). split; reflexivity.
+  - destruct (IH k c H) as [a [b [E L]]]. exists (cell_elems c0 ++ a), b. split.
+    + unfold all_elems in *. cbn [flat_map]. rewrite E, app_assoc. reflexivity.
+    + cbn [elem_offset]. rewrite app_length, Nat2Z.inj_add, L. reflexivity.
+Qed.
+
+Lemma untag_tag_from : forall es a b,
+  map (untag (a ++ es ++ b)) (tag_from (Z.of_nat (List.length a)) es) = es.
+Proof.
+  induction es as [|e es IH]; intros a b; cbn [tag_from map]; [reflexivity|]. f_equal.
+  - unfold untag; cbn [fst snd]. rewrite Nat2Z.id. rewrite app_nth2 by lia. rewrite Nat.sub_diag. cbn [app nth].
+    rewrite shape_of_t_tshape. destruct e; reflexivity.
+  - replace (Z.of_nat (List.length a) + 1) with (Z.of_nat (List.length (a ++ [e]))) by (rewrite app_length; cbn; lia).
+    replace (a ++ (e :: es) ++ b) with ((a ++ [e]) ++ es ++ b) by (rewrite <- app_assoc; reflexivity).
+    apply IH.
+Qed.
+
+Lemma rflat_unfold : forall fuel cells k es,
+  rflat fuel cells k = Some es ->
+  exists t tes, unfold fuel cells k = Some (Some t) /\ T.flatten_K T.ZR t = T.Ok tes /\
+                map (untag (all_elems cells)) tes = es.
+Proof.
+  induction fuel as [|f IH]; intros cells k es H; [discriminate|].
+  rewrite rflat_S in H. cbn [unfold].
+  destruct (nth_error cells k) as [c|] eqn:Ec; [|discriminate].
+  destruct (c_layout c) as [l|] eqn:El; [|discriminate].
+  destruct (rflat_insts f cells (lay_insts l)) as [sub|] eqn:Es; [|discriminate]. injection H as <-.
+  assert (Hgo : exists insts tsub,
+             (fix go (is : list instance) : option (list (T.placement Z * option tree)) :=
+                match is with
+                | [] => Some []
+                | inst :: r =>
+                  match placement_of inst with
+                  | None => None
+                  | Some p => match unfold f cells (i_cell inst) with
+                              | None => None
+                              | Some oc => match go r with Some rest => Some ((p, oc) :: rest) | None => None end
+                              end
+                  end
+                end) (lay_insts l) = Some insts /\
+             sub_flat T.ZR insts = T.Ok tsub /\ map (untag (all_elems cells)) tsub = sub).
+  { clear El Ec. revert sub Es. induction (lay_insts l) as [|inst r IHr]; intros sub Es; cbn [rflat_insts] in Es.
+    - injection Es as <-. exists [], []. repeat split.
+    - destruct (placement_of inst) as [p|]; [|discriminate].
+      destruct (rflat f cells (i_cell inst)) as [xs|] eqn:Ex; [|discriminate].
+      destruct (rflat_insts f cells r) as [ys|] eqn:Ey; [|discriminate]. injection Es as <-.
+      destruct (IH cells (i_cell inst) xs Ex) as [t [tes [Hu [Hf Hm]]]].
+      destruct (IHr ys eq_refl) as [insts [tsub [Hg [Hs Hms]]]].
+      rewrite Hu, Hg. eexists. eexists. split; [reflexivity|]. cbn [sub_flat]. rewrite Hf, Hs. split; [reflexivity|].
+      rewrite map_app, map_map. rewrite <- Hm, <- Hms, map_map. f_equal.
+      apply map_ext. intro te. apply untag_elem_map. }
+  destruct Hgo as [insts [tsub [Hg [Hs Hms]]]]. rewrite Hg.
+  eexists. eexists. split; [reflexivity|]. rewrite (flatten_K_step T.ZR TP.ZRth), Hs. split; [reflexivity|].
+  rewrite map_app, Hms. f_equal.
+  destruct (all_elems_split cells k c Ec) as [a [b [E L]]]. rewrite E, <- L.
+  unfold cell_elems. rewrite El. apply untag_tag_from.
+Qed.
+
+Lemma rflat_raw_flatten : forall L k es,
+  rflat (S (List.length (lib_cells L))) (lib_cells L) k = Some es -> raw_flatten L k = T.Ok es.
+Proof.
+  intros L k es H. unfold raw_flatten. destruct (rflat_unfold _ _ _ _ H) as [t [tes [Hu [Hf Hm]]]].
+  rewrite Hu, Hf, Hm. reflexivity.
+Qed.
+
+Lemma rflat_mono : forall f f' cells k es, rflat f cells k = Some es -> (f <= f')%nat -> rflat f' cells k = Some es.
+Proof.
+  induction f as [|f IH]; intros f' cells k es H Hle; [discriminate|].
+  destruct f' as [|f']; [lia|]. rewrite rflat_S in *.
+  destruct (nth_error cells k) as [c|]; [|discriminate]. destruct (c_layout c) as [l|]; [|discriminate].
+  destruct (rflat_insts f cells (lay_insts l)) as [sub|] eqn:Es; [|discriminate]. injection H as <-.
+  assert (Hs : rflat_insts f' cells (lay_insts l) = Some sub).
+  { revert sub Es. induction (lay_insts l) as [|inst r IHr]; intros sub Es; cbn [rflat_insts] in *; [exact Es|].
+    destruct (placement_of inst) as [p|]; [|discriminate].
+    destruct (rflat f cells (i_cell inst)) as [xs|] eqn:Ex; [|discriminate].
+    destruct (rflat_insts f cells r) as [ys|] eqn:Ey; [|discriminate].
+    rewrite (IH f' cells (i_cell inst) xs Ex) by lia. rewrite (IHr ys eq_refl). exact Es. }
+  rewrite Hs. reflexivity.
+Qed.
